@@ -28,8 +28,13 @@ Code-shaped model of `src/Watchdog.cc`, `Watchdog_inlines.hh`, `Time_inlines.hh`
   interval timer); when the timer reaches 0 the signal handler `handle_timeout` runs at that
   instant, whatever the program counter is: between two public operations, between reading
   `expired` and entering the critical section in the destructor, and between any two steps
-  inside the critical section (where it defers itself through `reschedule()`).  The handler
-  body is atomic (the signal is blocked while its handler runs) and takes no time.
+  inside the critical section, where it only sets `timeout_deferred`; `leave_critical_section`
+  then reads the timer and, if it is expired, calls `handle_timeout(0)` synchronously (its
+  `setitimer` is then a step of the main program).  The signal handler's body is atomic (the
+  signal is blocked while its handler runs) and takes no time.  The state field `reschedBug`
+  (a constant of a run; `runBeforeFix`) selects the handler as written before commit 9ac8059,
+  which called `reschedule()` = `set_timer(reschedule_time)` inside a critical section; it is
+  used only by the `…_before_fix_fails` witnesses.
 * Ghost state: real time `now`, the instant `epoch` at which `time_so_far` was last reset, the
   event log (births, firings, destructions, timer calls), `dirty` (time has passed inside a
   critical section).
@@ -125,6 +130,12 @@ inductive Event
   | internalError                                 -- `set_timer(0)` / failing call in handler or dtor
 deriving Repr, DecidableEq, Inhabited
 
+/-- which operation `leave_critical_section` is finishing -/
+inductive Fin
+  | ctor (id : Nat)
+  | dtor (id : Nat)
+deriving Repr, DecidableEq, Inhabited
+
 /-- program counter of the (single-threaded) main program -/
 inductive PC
   | idle
@@ -141,6 +152,10 @@ inductive PC
   | s1 (id : Nat)                                      -- before `stop_timer`
   | s2 (id : Nat)                                      -- inside `stop_timer`: before `setitimer`
   | dEnd (id : Nat)                                    -- before `in_critical_section = false`
+  | l2 (fin : Fin)                                     -- leave_critical_section: before `get_timer`
+  | l3 (fin : Fin) (tts : Time)                        -- … before the test of `time_to_shoot`
+  | l4 (fin : Fin)                                     -- … inside `handle_timeout(0)`'s `set_timer`: before `setitimer`
+  | l5 (fin : Fin)                                     -- … after it: before returning to the caller
 deriving Repr, DecidableEq, Inhabited
 
 structure St where
@@ -150,6 +165,7 @@ structure St where
   sigOnce : Time := Time.zero          -- signal_once.it_value (static buffer passed to setitimer)
   running : Bool := false              -- alarm_clock_running
   inCrit : Bool := false               -- in_critical_section
+  deferredFlag : Bool := false         -- timeout_deferred
   remaining : Int := 0                 -- environment: µs until the timer expires; 0 = disarmed
   pc : PC := .idle
   expired : List Nat := []             -- the `expired` members that are true
@@ -161,6 +177,7 @@ structure St where
   log : List Event := []               -- newest first
   dirty : Bool := false
   err : Bool := false
+  reschedBug : Bool := false           -- configuration: the handler as written BEFORE commit 9ac8059
 deriving Repr, Inhabited
 
 /-! ## `Pending_List` -/
@@ -195,23 +212,37 @@ def setTimerH (σ : St) (t : Time) : St :=
 def firedEvents (now : Int) (l : List Ev) : List Event :=
   l.map fun e => Event.fired e.id now e.gBirth e.gCs
 
-/-- `Watchdog::handle_timeout` -/
+/-- the body of `handle_timeout` outside a critical section; `sync`: called from
+    `leave_critical_section` (its final `setitimer` is then a step of the main program, `pc := .l4`),
+    otherwise from the signal handler (atomic) -/
+def handlerBody (eqBug : Bool) (sync : Option Fin) (σ : St) : St :=
+  let tsf := σ.tsf.add σ.ltr
+  match σ.pending with
+  | [] => { σ with tsf := tsf, running := false }
+  | e :: r =>
+    let due := e :: (takeDue eqBug tsf r).1
+    let rest := (takeDue eqBug tsf r).2
+    let σ' := { σ with tsf := tsf, pending := rest,
+                       expired := (due.map (·.id)).reverse ++ σ.expired,
+                       log := (firedEvents σ.now due).reverse ++ σ.log }
+    match rest with
+    | [] => { σ' with running := false }
+    | n :: _ =>
+      match sync with
+      | none => setTimerH σ' (n.deadline.sub tsf)
+      | some fin =>
+        let t := n.deadline.sub tsf
+        if t.isZero then { σ' with err := true, pc := .idle, log := .internalError :: σ'.log }
+        else { σ' with ltr := t, sigOnce := t, pc := .l4 fin }
+
+/-- `Watchdog::handle_timeout` as a signal handler.  Inside a critical section it only records
+    `timeout_deferred` (before commit 9ac8059 — `reschedBug` — it called `reschedule()` =
+    `set_timer(reschedule_time)`). -/
 def handler (eqBug : Bool) (σ : St) : St :=
   if σ.inCrit then
-    setTimerH { σ with log := .deferred σ.now :: σ.log } Time.reschedule
-  else
-    let tsf := σ.tsf.add σ.ltr
-    match σ.pending with
-    | [] => { σ with tsf := tsf, running := false }
-    | e :: r =>
-      let due := e :: (takeDue eqBug tsf r).1
-      let rest := (takeDue eqBug tsf r).2
-      let σ' := { σ with tsf := tsf, pending := rest,
-                         expired := (due.map (·.id)).reverse ++ σ.expired,
-                         log := (firedEvents σ.now due).reverse ++ σ.log }
-      match rest with
-      | [] => { σ' with running := false }
-      | n :: _ => setTimerH σ' (n.deadline.sub tsf)
+    if σ.reschedBug then setTimerH { σ with log := .deferred σ.now :: σ.log } Time.reschedule
+    else { σ with deferredFlag := true, log := .deferred σ.now :: σ.log }
+  else handlerBody eqBug none σ
 
 /-- `d` microseconds pass (clipped at the expiry of the timer, at which the handler runs) -/
 def tick (eqBug : Bool) (σ : St) (dt : Int) : St :=
@@ -250,6 +281,17 @@ def destroy (σ : St) (id : Nat) : St :=
 def throwCtor (σ : St) (id : Nat) : St :=
   { σ with pc := .idle, log := .threw id :: .setfail :: σ.log }
 
+/-- the operation returns to its caller -/
+def finish (σ : St) : Fin → St
+  | .ctor id => { σ with live := id :: σ.live, log := .constructed id σ.now :: σ.log, pc := .idle }
+  | .dtor id => { σ with log := .destroyed id σ.now :: σ.log, pc := .idle }
+
+/-- `leave_critical_section` up to the test of `timeout_deferred` (a signal between
+    `in_critical_section = false` and that test does not touch the flag) -/
+def leave (σ : St) (fin : Fin) : St :=
+  if σ.deferredFlag then { σ with inCrit := false, deferredFlag := false, pc := .l2 fin }
+  else finish { σ with inCrit := false } fin
+
 /-- next statement (group) of the operation in progress -/
 def step (eqBug : Bool) (σ : St) : St :=
   match σ.pc with
@@ -283,9 +325,7 @@ def step (eqBug : Bool) (σ : St) : St :=
       { σ with remaining := σ.sigOnce.toUs, log := .setitimer σ.sigOnce.toUs :: σ.log,
                pc := .cEnd id }
     else throwCtor σ id
-  | .cEnd id =>
-    { σ with inCrit := false, live := id :: σ.live, log := .constructed id σ.now :: σ.log,
-             pc := .idle }
+  | .cEnd id => leave σ (.ctor id)
   | .d1 id =>
     -- in_critical_section = true; remove_watchdog_event up to the first timer access
     match σ.pending with
@@ -322,8 +362,20 @@ def step (eqBug : Bool) (σ : St) : St :=
                log := .setitimer σ.sigOnce.toUs :: σ.log,
                pending := eraseId id σ.pending, pc := .dEnd id }
     else { σ with err := true, pc := .idle, log := .internalError :: .setfail :: σ.log }
-  | .dEnd id =>
-    { σ with inCrit := false, log := .destroyed id σ.now :: σ.log, pc := .idle }
+  | .dEnd id => leave σ (.dtor id)
+  | .l2 fin =>
+    { σ with log := .getitimer σ.remaining :: σ.log, pc := .l3 fin (getTimer σ) }
+  | .l3 fin tts =>
+    -- if (time_to_shoot == 0) handle_timeout(0)
+    if tts.isZero then
+      let σ' := handlerBody eqBug (some fin) σ
+      if σ'.pc = σ.pc then finish σ' fin else σ'
+    else finish σ fin
+  | .l4 fin =>
+    if σ.sigOnce.timevalOK then
+      { σ with remaining := σ.sigOnce.toUs, log := .setitimer σ.sigOnce.toUs :: σ.log, pc := .l5 fin }
+    else { σ with err := true, pc := .idle, log := .internalError :: .setfail :: σ.log }
+  | .l5 fin => finish σ fin
 
 /-- schedule steps -/
 inductive Step
@@ -342,6 +394,9 @@ def exec (eqBug : Bool) (σ : St) : Step → St
 def runFrom (eqBug : Bool) (σ : St) (sched : List Step) : St := sched.foldl (exec eqBug) σ
 
 def run (eqBug : Bool) (sched : List Step) : St := runFrom eqBug {} sched
+
+/-- the code before commit 9ac8059: a timeout inside a critical section calls `reschedule()` -/
+def runBeforeFix (eqBug : Bool) (sched : List Step) : St := runFrom eqBug { reschedBug := true } sched
 
 /-- a public operation run to completion (no time passes inside): at most 5 statement groups -/
 def Step.atomic : Step → List Step
